@@ -1,7 +1,7 @@
 (** Property C11 — ST-MOC serialisation round-trips in FITS, ASCII and JSON.  Statements only. *)
 From Coq Require Import List NArith Permutation.
 From MOC.Base Require Import RangeSet.
-From MOC.Model Require Import Qty Query Build Repr Serial ST STSerial AsciiCodec AsciiProofs.
+From MOC.Model Require Import Qty Query Build Repr Serial ST STSerial AsciiCodec AsciiProofs FitsCodec FitsProofs FitsStProofs.
 Import ListNotations.
 Open Scope N_scope.
 
@@ -55,6 +55,14 @@ Proof. exact prefix_chars_ok. Qed.
 Theorem C11_ascii_document_chars : forall dmax fold ul es, chars_ok (to_ascii dmax fold ul es).
 Proof. exact to_ascii_chars. Qed.
 
+(** ---- FITS v2, whole file, byte level (Model/FitsCodec.v: rangemoc2d_to_fits_ivoa / from_fits_ivoa as written) ----
+    header cards (no TTYPE1; COORDSYS, TIMESYS and both depth keywords), flagged rows, padding; the reader
+    takes the TIME.SPACE / RANGE branch and rebuilds every element *)
+Theorem C11_fits_file_roundtrip : forall w dt ds X, okw w -> dt < 256 -> ds < 256 -> Enc_ok (2 ^ (w - 1)) X ->
+  2 * N.of_nat (List.length (encode2 (2 ^ (w - 1)) X)) < 2 ^ 64 ->
+  fits_read (fits_write_st w dt ds X) = FOk LSTRange w dt ds (DSt X).
+Proof. exact fits_st_file_roundtrip. Qed.
+
 Example C11_nonvacuous :
   let X := [([(0, 4); (6, 8)], [(1, 2)]); ([(8, 9)], [(0, 1); (5, 7)])] in
   encode2 128 X = [(128, 132); (134, 136); (1, 2); (136, 137); (0, 1); (5, 7)] /\
@@ -78,3 +86,4 @@ Print Assumptions C11_text_roundtrip.
 Print Assumptions C11_ascii_st_roundtrip.
 Print Assumptions C11_ascii_prefix_chars.
 Print Assumptions C11_ascii_document_chars.
+Print Assumptions C11_fits_file_roundtrip.
